@@ -403,6 +403,9 @@ func (it *Interp) visitInstr(fr *frame, instr ssa.Instruction) (ret bool, jumped
 			capv := int64(it.eng.cfg.SymMakeCap)
 			if it.branch(c.Ule(sz, c.BV(uint64(capv), 64))) {
 				ln = it.concretizeInt(lt, isSigned(instr.Len.Type()))
+			} else if v := it.modelValue(sz); v <= uint64(it.eng.cfg.MaxAlloc) && it.branch(c.Eq(sz, c.BV(v, 64))) {
+				// the size has (or this fork fixes) one concrete value: allocate it exactly
+				ln = int64(v)
 			} else {
 				ln = capv + 1
 				it.pathNotes = append(it.pathNotes, "symbolic make size above SymMakeCap abstracted")
